@@ -978,6 +978,9 @@ class Driver:
             _, d, a = f
             if a == "update":
                 for k, v in (args[0].items() if isinstance(args[0], dict) else []):
+                    if k.startswith("**"):
+                        while k in d:           # the spread of another dictionary: kept beside the ones already there
+                            k += "'"
                     d[k] = v
                 if not isinstance(args[0], dict):
                     key = "**upd"
@@ -1248,6 +1251,18 @@ def _effect_free(stmts):
 def _flush_loop(st, state):
     """a loop that only stores into elements of an untracked local container (the optional data
     dump): no effect on the tracked state"""
+    # names the loop itself binds, when it iterates over untracked locals (zip(rows_per_variable, self.Qn.data)): an element of
+    # an untracked container is untracked
+    targets = set()
+    if isinstance(st, ast.For):
+        src_ok = True
+        for n in ast.walk(st.iter):
+            if isinstance(n, ast.Name) and isinstance(n.ctx, ast.Load) and n.id in state.env:
+                v = state.env[n.id]
+                if isinstance(v, FieldObj) or (isinstance(v, ListObj) and v.name == "results"):
+                    src_ok = False
+        if src_ok:
+            targets = {n.id for n in ast.walk(st.target) if isinstance(n, ast.Name)}
     for n in ast.walk(st):
         if isinstance(n, (ast.Assign, ast.AugAssign)):
             ts = n.targets if isinstance(n, ast.Assign) else [n.target]
@@ -1266,6 +1281,8 @@ def _flush_loop(st, state):
             # appending to an untracked local list (the data dump built element by element) is no effect on the tracked state
             r = n.func.value
             if n.func.attr in ("append", "extend") and isinstance(r, ast.Name) and (isinstance(state.env.get(r.id), (list, Opq)) or (isinstance(state.env.get(r.id), ListObj) and state.env.get(r.id).name != "results")):
+                continue
+            if n.func.attr in ("append", "extend") and isinstance(r, ast.Name) and r.id in targets and r.id not in state.env:
                 continue
             return False
         if isinstance(n, ast.Attribute) and isinstance(n.ctx, ast.Store):
